@@ -42,6 +42,10 @@ pub enum Op {
 pub struct Case {
     pub ops: Vec<Op>,
     pub creds: Creds,
+    /// when set, SHA-256 integrity is added with these credentials and SHA-1 integrity with `creds`
+    /// (each integrity attribute must be valid under the credentials it was added with)
+    #[serde(default)]
+    pub creds2: Option<Creds>,
 }
 
 const POOL_KINDS: [Kind; 12] = [
@@ -109,7 +113,7 @@ fn snapshot(b: &MessageBuilder, probes: &[u16]) -> (Vec<u8>, usize, Vec<bool>) {
 }
 
 /// invariants of every reachable builder state
-fn check_state(b: &MessageBuilder, model: &Model, creds: &Creds, step: &str) -> TestResult {
+fn check_state(b: &MessageBuilder, model: &Model, creds: &Creds, creds2: &Creds, step: &str) -> TestResult {
     let built = guard(|| b.build()).map_err(|p| Fail::new("c11-panic", format!("{}: build panicked: {}", step, p)))?;
     ensure!(
         built.len() == b.byte_len() && built.len() % 4 == 0,
@@ -168,6 +172,27 @@ fn check_state(b: &MessageBuilder, model: &Model, creds: &Creds, step: &str) -> 
     }
     // integrity and fingerprint are valid as far as the library's own parser and validator are
     // concerned (the values themselves are C04's / C09's business)
+    // each integrity attribute is the HMAC of what precedes it under the credentials it was added
+    // with (independent HMAC)
+    for a in tlvs.iter().filter(|a| a.ty == T_MI || a.ty == T_SHA256) {
+        let k = if a.ty == T_MI { creds.key() } else { creds2.key() };
+        let verdict = refstun::integrity_verdict(&built, a, &k);
+        ensure!(
+            verdict == refstun::IntegrityVerdict::Correct,
+            "c11-integrity",
+            "{}: the {} attribute of the serialised builder state is {:?} under the credentials it was added with ({:?})",
+            step,
+            if a.ty == T_MI { "MESSAGE-INTEGRITY" } else { "MESSAGE-INTEGRITY-SHA256" },
+            verdict,
+            if a.ty == T_MI { creds } else { creds2 }
+        );
+    }
+    // the library's own validator, where one set of credentials speaks for everything present
+    let single = if model.mi && model.sha256 { if creds.key() == creds2.key() { Some(creds) } else { None } } else if model.mi { Some(creds) } else { Some(creds2) };
+    let creds = match single {
+        Some(c) => c,
+        None => return Ok(()),
+    };
     if model.mi || model.sha256 {
         let v = guard(|| msg.validate_integrity(&creds.to_lib())).map_err(|p| Fail::new("c11-panic", p))?;
         ensure!(
@@ -233,13 +258,18 @@ fn test(c: &Case, st: &mut Stats) -> TestResult {
         _ => vec![],
     }).collect();
     let lc = c.creds.to_lib();
+    let creds2 = c.creds2.clone().unwrap_or_else(|| c.creds.clone());
+    let lc2 = creds2.to_lib();
+    if c.creds2.is_some() {
+        st.class("SHA-1 and SHA-256 integrity added with different credentials");
+    }
     let mt = stun_types::message::MessageType::from_class_method(stun_types::message::MessageClass::Request, 1);
     let mut b: MessageBuilder = Message::builder(mt, TransactionId::from(TID));
     let mut model = Model::default();
     let mut kept: Vec<(MessageBuilder, Vec<u8>)> = vec![];
     let mut refusals_after_success = 0;
     let mut successes = 0;
-    check_state(&b, &model, &c.creds, "fresh builder")?;
+    check_state(&b, &model, &c.creds, &creds2, "fresh builder")?;
     for (i, op) in c.ops.iter().enumerate() {
         let step = format!("step {} {:?}", i, op);
         let probes: Vec<u16> = {
@@ -337,7 +367,7 @@ fn test(c: &Case, st: &mut Stats) -> TestResult {
             }
             Op::Sha256 => {
                 let refused = model.sha256 || model.fp;
-                let r = guard(|| b.add_message_integrity(&lc, IntegrityAlgorithm::Sha256)).map_err(|p| Fail::new("c11-panic", format!("{}: {}", step, p)))?;
+                let r = guard(|| b.add_message_integrity(&lc2, IntegrityAlgorithm::Sha256)).map_err(|p| Fail::new("c11-panic", format!("{}: {}", step, p)))?;
                 if r.is_ok() {
                     model.sha256 = true;
                 }
@@ -442,7 +472,7 @@ fn test(c: &Case, st: &mut Stats) -> TestResult {
                 }
             }
         }
-        check_state(&b, &model, &c.creds, &step)?;
+        check_state(&b, &model, &c.creds, &creds2, &step)?;
     }
     // builders left aside by clone still serialise as they did
     for (k, (orig, snap)) in kept.iter().enumerate() {
@@ -503,6 +533,7 @@ fn all_sequences(max_len: usize) -> Vec<Case> {
         .map(|codes| Case {
             ops: codes.iter().enumerate().map(|(i, c)| fixed_op(*c, i)).collect(),
             creds: Creds::Short { password: "secret".into() },
+            creds2: None,
         })
         .collect()
 }
@@ -545,7 +576,7 @@ pub fn run(ctx: &Ctx) -> EvidenceMeta {
     ctx.proptest(
         "generated-sequences",
         ctx.n(20_000, 600_000),
-        || (vec(op_strategy(), 0..40), gen::creds_strategy()).prop_map(|(ops, creds)| Case { ops, creds }),
+        || (vec(op_strategy(), 0..40), gen::creds_strategy(), prop_oneof![2 => Just(None), 1 => gen::creds_strategy().prop_map(Some)]).prop_map(|(ops, creds, creds2)| Case { ops, creds, creds2 }),
         test,
     );
     EvidenceMeta {
